@@ -36,6 +36,7 @@ EXPLANATION = (
     'relabelling (runtime).')
 ASSUMPTIONS = ["pandapower.auxiliary.get_indices maps every value through the lookup", "DataFrame.drop / .loc semantics"]
 TECHNIQUE = "schema derivation from create functions and component classes; guarded-access check over consumers of the reference map"
+EXPLANATION += (' ' + '(R17.6) element_junction_tuples, the work list of the dropping and reindexing tools, is put into normal form with all include_* flags False (with and without a net): no (table, column) pair may be added, so a column that is listed whenever its table exists (and makes a tool touch elements of an excluded kind) is reported.')
 
 
 def _validated_table(ix, f, c, p):
